@@ -120,6 +120,11 @@ func Cover(label string) { apiMu.Lock(); Covers[label]++; apiMu.Unlock() }
 // runtime already randomises).
 func MapOrder(on bool) { mapOrder = on }
 
+// PoolReuse asks the engine to let sync.Pool hand back what was Put (LIFO, the
+// single-goroutine behaviour between garbage collections) instead of always
+// missing. Natively it has no effect: the real pool does what it does.
+func PoolReuse(on bool) {}
+
 // Try runs f and reports whether a panic escaped it (with its text).
 func Try(f func()) (panicked bool, msg string) {
 	defer func() {
